@@ -74,6 +74,14 @@ class C02(Check):
         rng = np.random.default_rng([seed, 2])
         n_cases = 110 if q else 3000
         lengths_for = lambda c: [1, 2, max(1, c - 1), c, c + 1, 2 * c - 1, 2 * c, 2 * c + 1, 97]  # noqa: E731
+        # stratified stress of the parallel pipeline: several chunks with a tiny last chunk
+        k = 0
+        for source in SOURCES:
+            for c, n in ((7, 22), (50, 151), (3, 10)) if q else ((7, 22), (50, 151), (3, 10), (20, 81), (100, 301)):
+                for mode in ("centres", "index"):
+                    k += 1
+                    yield dict(seed=seed * 7919 + k, source=source, mode=mode, weights=True, redshifts=bool(k % 2),
+                               dtype="f8", degrees=True, n=n, chunk=c, parallel=True, progress=False, group="smaller")
         for i in range(n_cases):
             c = int(rng.choice([1, 2, 3, 7, 100]))
             n = int(rng.choice(lengths_for(c))) if rng.random() < 0.7 else int(rng.integers(1, 400))
@@ -89,6 +97,9 @@ class C02(Check):
                 n=n, chunk=chunk, parallel=bool(i % 4 == 0), progress=bool(rng.random() < 0.2),
                 group=str(rng.choice(["smaller", "equal", "larger", "one"])),
             )
+
+    def setup_worker_unused(self):
+        pass
 
     def setup_worker(self):
         warnings.simplefilter("ignore")
@@ -189,9 +200,16 @@ class C02(Check):
                     orig_call = ycat.ChunkProcessingTask.__call__
                     orig_pp = ycat.CatalogWriter.process_patches
 
+                    last_start = ((n - 1) // chunksize) * chunksize  # first row id of the last chunk
+
                     def delayed_call(self_, chunk_):
-                        h = int(hashlib.sha1(chunk_.tobytes()[:64] + str(delay_seed).encode()).hexdigest()[:6], 16)
-                        time.sleep((h % 7) * 0.002)
+                        if delay_seed % 2 == 0 and "weights" in chunk_.dtype.names and len(chunk_):
+                            # adversary for end-of-stream protocols: every task is slow except those of
+                            # the last chunk, so the last chunk completes while earlier parts still run
+                            time.sleep(0.0 if chunk_["weights"].min() >= last_start + 0.5 else 0.03)
+                        else:
+                            h = int(hashlib.sha1(chunk_.tobytes()[:64] + str(delay_seed).encode()).hexdigest()[:6], 16)
+                            time.sleep((h % 7) * 0.002)
                         return orig_call(self_, chunk_)
 
                     def logging_pp(self_, patches):
